@@ -148,6 +148,14 @@ def c01(chk):
     info, summ = vf.run_model("ops_" + pool, "MC_Ops.tla", {"PoolName": pool}, chk.outdir, workers=12 if quick else 16,
                               env_extra={"PRIMS": prims})
     chk.add_model(info, summ, PANIC, ["op_nontrivial"], note="16 operators x pool^2 (overflow corners such as MIN % -1, MIN / -1, -MIN)")
+    # lexical corners: every short word alone and embedded plus the special words (i64 / hex boundaries, extreme exponents),
+    # string bodies with escapes and non-ASCII characters, raw texts with stray quotes, lone & and |, comment openers
+    wl = 3 if quick else 5
+    prims = vf.make_prims("lexwords", chk.outdir, extra={"words": lex_word_candidates(wl)})
+    for fam in ("words", "strings", "raw"):
+        info, summ = vf.run_model(f"lex_{fam}{wl}", "MC_Lex.tla", {"Family": fam, "MaxLen": wl}, chk.outdir,
+                                  workers=12 if quick else 16, env_extra={"PRIMS": prims}, timeout=3000)
+        chk.add_model(info, summ, PANIC, [], note=f"MC_Lex.tla family {fam} up to length {wl}: all entry points, no panic")
     if not quick:
         ctx_model(chk, "small", PANIC, workers=16)
     chk.add_traces("trace_deep", "deep", 1, 1 if quick else 3, "deep",
